@@ -93,22 +93,21 @@ class BigTtlTriplesYielder(BaseTriplesYielder):
         """Remove comments in the middle of the line.
         Lines starting with # wont be erased
         """
-        if '"' not in str_line:  # Comment mark and no literals, trivial case
-            return str_line[:str_line.find(" #")]
-        # We need to find the begining and end of the literal to avoid erasing
-        # comments within literals (actual content)
-        quotes_indexes = []
-        count_down_quotes = 2
-        for a_match in _QUOTES_FOR_LITERALS.finditer(str_line):
-            quotes_indexes.append(a_match.start(0))
-            count_down_quotes -= 1
-            if count_down_quotes == 0:
-                break
-        for a_match in _INIT_INLINE_COMMENT.finditer(str_line):
-            if a_match.start(0) < quotes_indexes[0] or a_match.start(0) > quotes_indexes[1]:
-                return str_line[:a_match.start(0)]
-        return str_line  # If this point is reached, it means that the potential comments
-                         # are actual content of a string literal
+        # A " #" within a literal is actual content of the literal, not a comment
+        in_literal = False
+        index = 0
+        while index < len(str_line):
+            if in_literal:
+                if str_line[index] == "\\":
+                    index += 1  # Escaped char, it can't close the literal
+                elif str_line[index] == '"':
+                    in_literal = False
+            elif str_line[index] == '"':
+                in_literal = True
+            elif str_line[index] == "#" and index > 0 and str_line[index - 1] == " ":
+                return str_line[:index - 1]
+            index += 1
+        return str_line
 
     def _process_line_2(self, str_line):
         str_line = self._clean_line(str_line)
